@@ -186,13 +186,13 @@ def _run(args, prop, mod, prop_mod, tmpdir, seed, t_start):
             errors.append(f"shadow fidelity self-check failed: {json.dumps(fid)[:800]}")
     # ---- aggregate
     agg = dict(paths=0, transitions=0, obligations=0, discharged=0, unknown=0, divergences=0, queries=0,
-               solver_s=0.0, display=0, aborted=0, budget_exhausted=0)
+               solver_s=0.0, display=0, aborted=0, budget_exhausted=0, pin_chains_cut=0)
     pins, ob_ids, funcs, samples = {}, {}, set(), []
     known_hits, violations, validate = {}, [], []
     harnesses = 0
     for r in results:
         harnesses += 1
-        for k in ("paths", "transitions", "obligations", "discharged", "unknown", "divergences", "queries", "display", "aborted"):
+        for k in ("paths", "transitions", "obligations", "discharged", "unknown", "divergences", "queries", "display", "aborted", "pin_chains_cut"):
             agg[k] += r.get(k, 0)
         agg["solver_s"] += r.get("solver_s", 0.0)
         agg["budget_exhausted"] += 1 if r.get("budget_exhausted") else 0
@@ -320,6 +320,7 @@ def _run(args, prop, mod, prop_mod, tmpdir, seed, t_start):
         "pins_by_operation": pins, "display_concretisations": agg["display"],
         "divergences": agg["divergences"], "path_budget_exhausted_harnesses": agg["budget_exhausted"],
         "engine_aborts": agg["aborted"],
+        "pin_enumerations_cut_as_sampling": agg["pin_chains_cut"],
         "solver": {"name": "z3", "queries": agg["queries"], "seconds": round(agg["solver_s"], 2)},
         "bounds": getattr(mod, "BOUNDS", {}).get(tier, getattr(mod, "BOUNDS", {})),
         "outside_claim": getattr(mod, "OUTSIDE", []),
